@@ -9,13 +9,13 @@ import numpy as np
 import vlib
 from harness.speccommon import *
 
-LEVEL_TEXT = ('Lean 4 theorems about an executable model of Spectrum._ufunc/_interp_common (ufunc_pointwise, scalar_vector_elementwise, unit_handover_partial and operand_inside/outside are structural restatements of the model; the content is operand_is_interpolant — operands equal the independently defined piecewise-linear interpolant / the fill —, grid_spans_union_start, grid_spans_union_end, grid_step_le_requested, grid_size_scale_invariant, ufunc_result_valid, ufunc_scale / unit_invariance_unitless and op_comm): the result at every grid point is '
+LEVEL_TEXT = ('Lean 4 theorems about an executable model of Spectrum._ufunc/_interp_common (ufunc_pointwise, scalar_vector_elementwise, the partial theorem unit_handover_partial and operand_inside/outside are structural restatements of the model; the content is operand_is_interpolant — operands equal the independently defined piecewise-linear interpolant / the fill —, grid_spans_union_start, grid_spans_union_end, grid_step_le_requested, grid_size_scale_invariant, ufunc_result_valid, ufunc_scale / unit_invariance_unitless and op_comm): the result at every grid point is '
               'op(S1(g), S2(g)) with Si the linear interpolant inside operand i\'s range and the fill value outside; the grid starts at '
               'the smaller minimum and ends at the larger maximum; add/multiply (any commutative op) are commutative incl. the '
               'left/right sampling swap; scalar/vector operands act element-wise on the unchanged grid; the right operand is used '
               'in the left operand\'s unit. Model tied to the code by differential testing at ℚ.')
 LEVEL_NOTE = ('the scalar grid arithmetic of _interp_common (range, guard, number of intervals, linspace arguments), what each _sampling option selects and the wiring of Spectrum._ufunc (element-wise operand kinds, conversion of the right operand on a copy, no write to self, result units from the left operand) are regenerated as Gen/InterpGrid.lean; the model consumes them (bridge lemmas gridNum_eq, commonGrid_eq, samplingOf_eq) and operands_unchanged_structural is about the wiring. unit invariance is proved for unitless spectra (`unit_invariance_unitless`: re-expressing both operands and a numeric sampling in any unit rescales the result\'s grid and keeps its values, every operator; `ufunc_scale` is the k>0 core) and, end to end from valid operands (`ufunc_of_valid`: WF, valid grids, ≥ 2 samples, a named sampling option ⇒ the operation succeeds on a valid grid from the smaller minimum to the larger maximum with one value per wavelength and pointwise values; all side conditions derived), the result is a spectrum; the guard band is `operand_guard_band`; commutativity at driver level is `ufuncU_comm_same_units` (same units) and `ufuncU_comm_across_units` (unitless operands in different units); for density spectra (scope in ASSUMPTIONS) only the '
-              'hand-over step is proved (`unit_handover_partial`) and the clause, like "operands unchanged" and "result is a new object", '
+              'hand-over step is proved (`unit_handover_partial`, a PARTIAL theorem: the right operand is used in the left operand\'s unit and the result carries the left units; it does not give invariance) and the clause, like "operands unchanged" and "result is a new object", '
               'is evaluated on the implementation by the oracle in every run (all 4 units, snapshots). Trusted: interp1d(linear), '
               'np.linspace, np.clip.')
 TECHNIQUE = 'Lean 4 proof (unfolding + list lemmas) about a hand model + differential correspondence at ℚ'
@@ -36,7 +36,7 @@ ASSUMPTIONS = ['sampling <= 0 and one-sample operands are not generated (the mod
                'unit invariance is claimed — and checked by the oracle in all 4 units — for unitless spectra with any fill value and for density spectra with fill 0 (add/subtract/multiply): a numeric fill value is a number in the left operand\'s value unit per ITS wavelength unit, so for densities a fixed non-zero fill is not unit-invariant by construction (e.g. 3.5 in nm vs 2.0015 for the same operands in um); divide needs a non-zero fill and is therefore checked for unitless spectra only',
                'operands with different value units (photlam + flam): the code combines the raw numbers and labels the result with the left operand\'s unit (so a+b and b+a carry different labels); generated (tag value-units:mixed), model and oracle follow the code; reported as an observation',
                'quadratic/cubic interpolation (tag method:…): oracle only — the method-independent laws (grid, commutativity, unit invariance, operands unchanged) and the values against an independent scipy interp1d of the same kind on the clipped grid; Blackbody operands and grids of more than 6000 points are oracle-only too',
-               'the documented two-element (below, above) fill_value raises ValueError in spectrum-spectrum arithmetic on the current code (fill_value * np.ones(n)); probed and counted (tag fill-pair:…), reported, not modelled',
+               'the documented two-element (below, above) fill_value is not usable in spectrum-spectrum arithmetic: _interp_common computes fill_value * np.ones(n), which raises ValueError (broadcast) unless the common grid has exactly n = 2 points; for n = 2 the call is accepted and the pair is used POSITION-wise as the fill array [below, above] of the two grid points (not as below/above-range values). Probed on every such case (tag fill-pair:ValueError / fill-pair:accepted), the oracle expects exactly this split; reported, not modelled',
                'for scalar/vector operands the result shares its wavelength array with the operand ((s*2.0).wave is s.wave): counted (tag result-grid-aliases-operand); the result is a new Spectrum object and no lentil call mutates the array in place, so it is reported as an observation, not as a violation of "the result is a new spectrum"',
                'a numeric sampling is below 1e9 x the union span (beyond that the 1e-9·Δ guard of _interp_common collapses the grid to one point; model and code agree there)',
                'both operands have at least two samples; division avoids zero denominators (values and fill of the divisor are non-zero)']
@@ -290,6 +290,7 @@ def _pair(c, R, s1, s2, o):
             if c.get('method', 'linear') != 'linear': kw['method'] = c['method']
             mk = {'method': c['method']} if c.get('method', 'linear') != 'linear' else {}
             if c.get('fk') == 'pair':
+                o['pair_n'] = len(s1.add(s2).wave)          # the probe uses the default sampling: its own common grid
                 try:
                     s1.add(s2, fill_value=(0.5, 2.0)); o['pair'] = 'accepted'
                 except ValueError:
@@ -491,6 +492,8 @@ def oracle(c, io):
     if bad.any():
         i = int(np.argmax(bad))
         return f"value at {g[i]} nm is {r['value'][i]!r}; {c['fn']}(S1, S2) = {c['fn']}({a[i]!r}, {b[i]!r}) = {float(want[i])!r}"
+    if 'pair' in io and io['pair'] != ('accepted' if io['pair_n'] == 2 else 'ValueError'):
+        return f"fill_value=(0.5, 2.0) on a common grid of {io['pair_n']} points: {io['pair']} (today: accepted exactly for 2 points, ValueError otherwise)"
     if 'swapped' in io:
         s = io['swapped']
         if len(s['wave']) != len(r['wave']) or not all_close(s['wave'], r['wave'], 1e-12) or not all_close(s['value'], r['value'], 1e-9, atol):
